@@ -465,7 +465,7 @@ fn bfs(st: &mut Stats, pepper: bool, clk: Clk, max_users: usize, depth: usize) {
 
 pub fn run(mut cx: Ctx) -> ! {
     cx.rule = "breadth-first search over histories of {create_user(p1|p2), remove_user, create_session (already expired | default | explicit lifetime), refresh, invalidate_session, invalidate_user_session, the same on unknown uids/tokens, and (clock search) one-second ticks of a virtual wall clock against lifetimes of 2-3 s} on the real AuthProvider over the crate's own Vec<User> database (snapshot/restore), deduplicated on a canonical state read off the model AND the real database (per user: exists, password, model session with seconds left, stored session's token index and distance to its expiry; number of tokens issued); every step is compared with a reference model and every successor (new or merged) is probed: exists, stored hash unchanged (password verification with right/other/wrong passwords in new states whenever the user set changed and at the last level), get_uid_by_token for every token ever issued and unknown ones, and the with_auth_route handler with no cookie, garbage and every token; states = canonical states, transitions = operations applied; non-trivial = successors probed".into();
-    let depth = cx.pick(6, 8);
+    let depth = cx.pick(6, 9);
     let users = cx.pick(3, 3);
     cx.bound("depth", depth);
     cx.bound("max_users", users);
@@ -475,7 +475,7 @@ pub fn run(mut cx: Ctx) -> ! {
     // the same search on a virtual wall clock: sessions of 2 s (default), 3 s (explicit) and 2 s after a refresh,
     // one-second ticks; expiry is reached by time passing, refresh extends from the moment of the refresh
     let clk = Clk { ticking: true, default: 2, explicit: 3, refresh: 2 };
-    let cdepth = cx.pick(7, 9);
+    let cdepth = cx.pick(7, 10);
     cx.bound("clock_search_depth", cdepth);
     bfs(&mut st, false, clk, 2, cdepth);
     cx.stats.merge(st);
